@@ -353,6 +353,9 @@ func (e *FunctionCallExpr) Value(ctx *hcl.EvalContext) (cty.Value, hcl.Diagnosti
 	varParam := f.VarParam()
 
 	args := e.Args
+	// Marks of an expanded collection that turned out to have no elements.
+	var emptyExpandMarks cty.ValueMarks
+
 	if e.ExpandFinal {
 		if len(args) < 1 {
 			// should never happen if the parser is behaving
@@ -396,13 +399,18 @@ func (e *FunctionCallExpr) Value(ctx *hcl.EvalContext) (cty.Value, hcl.Diagnosti
 				return cty.DynamicVal, diags
 			}
 			if !expandVal.IsKnown() {
-				return cty.DynamicVal, diags
+				return cty.DynamicVal.WithSameMarks(expandVal), diags
 			}
 
 			// When expanding arguments from a collection, we must first unmark
 			// the collection itself, and apply any marks directly to the
 			// elements. This ensures that marks propagate correctly.
 			expandVal, marks := expandVal.Unmark()
+			if expandVal.LengthInt() == 0 {
+				// There are no elements to carry the marks, but the result
+				// still depends on the collection being empty.
+				emptyExpandMarks = marks
+			}
 			newArgs := make([]Expression, 0, (len(args)-1)+expandVal.LengthInt())
 			newArgs = append(newArgs, args[:len(args)-1]...)
 			it := expandVal.ElementIterator()
@@ -629,7 +637,7 @@ func (e *FunctionCallExpr) Value(ctx *hcl.EvalContext) (cty.Value, hcl.Diagnosti
 		return cty.DynamicVal, diags
 	}
 
-	return resultVal, diags
+	return resultVal.WithMarks(emptyExpandMarks), diags
 }
 
 func (e *FunctionCallExpr) Range() hcl.Range {
